@@ -14,7 +14,12 @@ def lmOf (e : CEntry) : Option Int := match e.o.lm with | .at l => some l | _ =>
     run and the C06 verdict tie that to the code). -/
 theorem conditionals_come_from_the_store (cfg : Cfg) (tbl : Nat → Option ORes) (c : Cache) (now : Int) (r : Req) (u : UpReq)
     (hu : u ∈ (handle cfg tbl c now r).2.2) (hc : u.inm ≠ "" ∨ u.ims ≠ none) :
-    ∃ e, lookup c r.res r.query = some e ∧ e.expires < now ∧ u.inm = e.o.etag ∧ u.ims = lmOf e :=
+    ∃ e, (lookup c r.res r.query = some e ∨
+          -- … or the entry this very request stored a moment ago (retry without Range of an
+          -- unsatisfiable Range request whose 200 answer was already expired on arrival)
+          (cfg.retryInvalidRange = true ∧ originAnswer tbl (upReq r r.range) = .full e.o ∧
+           storable cfg e.o r.method now = true ∧ e.expires = lifetimeEnd cfg e.o now)) ∧
+      e.expires < now ∧ u.inm = e.o.etag ∧ u.ims = lmOf e :=
   Rv.Lemmas.FetchB.conditionals_come_from_the_store cfg tbl c now r u hu hc
 
 /-- a plain GET for a stale entry first asks the origin with exactly the stored
